@@ -777,8 +777,8 @@ def order_indexes(tier):
 def order_cfgs(tier, form):
     """Object configurations of the order product for one form (multi / scalar:k / sky), first aperture spec.
     thorough: the full product unit x error x clip x sum_method for the multi and scalar forms, without units for sky.
-    quick (no units): multi: {exact, center} x error x clip; scalar: {exact, center} x error given x clip;
-    sky: exact x error given x the sigma clip (chains only, see order_parts)."""
+    quick (no units): multi: {exact, center} x ({error given} x clip + {no error} x no clip); scalar: {exact, center} x
+    error given x clip; sky: exact x error given x the sigma clip (chains only, see order_parts)."""
     if tier == 'thorough':
         return [{'sum_method': m, 'error': e, 'clip': c, 'unit': un}
                 for un in (ORDER_UNITS if form != 'sky' else ['none']) for e in ORDER_ERRORS for c in ORDER_CLIPS
@@ -786,7 +786,8 @@ def order_cfgs(tier, form):
     methods = ['exact'] if form == 'sky' else ['exact', 'center']
     errors = ORDER_ERRORS if form == 'multi' else ['finite']
     clips = [ORDER_CLIPS[1]] if form == 'sky' else ORDER_CLIPS
-    return [{'sum_method': m, 'error': e, 'clip': c, 'unit': 'none'} for e in errors for c in clips for m in methods]
+    return [{'sum_method': m, 'error': e, 'clip': c, 'unit': 'none'} for e in errors for c in clips for m in methods
+            if not (e == 'none' and c is not None)]
 
 
 class OrderCtx:
@@ -979,12 +980,14 @@ def check_pairs(acc, octx, ops, tcols, alone, only=None):
                 continue
             d = op_diff(r2, alone[o2])
             if d:
-                acc.violation('access-order', f'{blame(o2, d)}:after:{o1}',
+                # keyed by the attribute that comes out wrong (o1 is in the case): one defect is usually triggered by
+                # many different first reads
+                acc.violation('access-order', f'{blame(o2, d)}:after-another-read',
                               order_case(octx, [o1, o2], 'pair'), d,
                               f'the value of {o2} read alone on a fresh object', f'{o2} read after {o1} on one object')
             d = op_diff(r1, alone[o1])
             if d:
-                acc.violation('access-order', f'{blame(o1, d)}:returned-value-changed-by:{o2}', order_case(octx, [o1, o2], 'pair'), d,
+                acc.violation('access-order', f'{blame(o1, d)}:returned-value-changed-by-later-read', order_case(octx, [o1, o2], 'pair'), d,
                               f'the value {o1} returned before {o2} was read', 'the object handed out earlier was altered')
     bad = octx.inputs_changed()
     if bad:
